@@ -433,3 +433,295 @@ Section Occurrences.
   Qed.
 
 End Occurrences.
+
+(** * Consequences of the post-order specification *)
+Section Spec.
+  Context {R : Type}.
+  Variable cb : callbacks R.
+
+  (** ** every event of the specification satisfies what its own callback
+      invocation satisfies *)
+  Section ForallEvents.
+    Variable Q : event R -> Prop.
+    Hypothesis Qnode : forall p n, Q (Ev p (node_kind n) (SubNode n) (node_payload cb (result cb) p n)).
+    Hypothesis Qargs : forall p a, Q (Ev p KPArgs (SubArgs a) (PArgnlist (pargs_payload (result cb) p a))).
+
+    Definition PQ (n : node) : Prop := forall p, Forall Q (postorder_events cb p n).
+
+    Lemma slot_events_Forall : forall l, Forall (Pslot PQ) l -> forall p mk i,
+      Forall Q (slot_events (postorder_events cb) p mk i l).
+    Proof.
+      induction 1 as [|s r Hs Hr IH]; intros p mk i; [constructor|]. destruct s as [c|].
+      - rewrite slot_events_some. apply Forall_app. split; [apply Hs | apply IH].
+      - rewrite slot_events_none. apply IH.
+    Qed.
+    Lemma body_events_Forall : forall b, Pbody PQ b -> forall p,
+      Forall Q (body_events (postorder_events cb) p b).
+    Proof.
+      intros [c|] Hb p; [|constructor]. destruct c; try constructor.
+      destruct Hb as [_ Hl]. now apply slot_events_Forall.
+    Qed.
+    Lemma args_events_Forall : forall a, Pargs PQ a -> forall p,
+      Forall Q (args_events cb (postorder_events cb) p a).
+    Proof.
+      intros [[sp l]|] Ha p; [|constructor]. cbn [args_events]. apply Forall_app. split.
+      - now apply slot_events_Forall.
+      - constructor; [apply Qargs | constructor].
+    Qed.
+
+    Lemma postorder_Forall : forall n, PQ n.
+    Proof.
+      induction n using node_ind'; intros q; cbn [postorder_events]; apply Forall_app; split;
+        try (constructor; [apply (Qnode q) | constructor]); try constructor.
+      - now apply body_events_Forall.
+      - now apply args_events_Forall.
+      - apply Forall_app. split; [now apply args_events_Forall | now apply body_events_Forall].
+      - now apply args_events_Forall.
+      - now apply body_events_Forall.
+      - now apply slot_events_Forall.
+    Qed.
+  End ForallEvents.
+
+  (** the callback matches the class, receives the folded results of what the
+      object owns, and what it returns is the object's contribution upwards *)
+  Lemma postorder_event_facts : forall n p e, In e (postorder_events cb p n) ->
+    ev_kind e = subject_kind (ev_subj e)
+    /\ ev_pay e = expected_payload cb (ev_path e) (ev_subj e)
+    /\ callback_result cb e = Some (subject_result cb (ev_path e) (ev_subj e)).
+  Proof.
+    intros n p. apply Forall_forall. revert p. apply postorder_Forall.
+    - intros p m. repeat split. destruct m; reflexivity.
+    - intros p a. repeat split.
+  Qed.
+
+  (** ** the visited objects are exactly the objects of the tree *)
+  Definition Pperm (n : node) : Prop :=
+    forall p, Permutation (map ev_occ (postorder_events cb p n)) (occurrences p n).
+
+  Lemma slot_events_perm : forall l, Forall (Pslot Pperm) l -> forall p mk i,
+    Permutation (map ev_occ (slot_events (postorder_events cb) p mk i l)) (slot_occ occurrences p mk i l).
+  Proof.
+    induction 1 as [|s r Hs Hr IH]; intros p mk i; [constructor|]. destruct s as [c|].
+    - rewrite slot_events_some, slot_occ_some, map_app. apply Permutation_app; [apply Hs | apply IH].
+    - rewrite slot_events_none, slot_occ_none. apply IH.
+  Qed.
+  Lemma body_events_perm : forall b, Pbody Pperm b -> forall p,
+    Permutation (map ev_occ (body_events (postorder_events cb) p b)) (body_occ occurrences p b).
+  Proof.
+    intros [c|] Hb p; [|constructor]. destruct c; try constructor.
+    destruct Hb as [_ Hl]. now apply slot_events_perm.
+  Qed.
+  Lemma args_events_perm : forall a, Pargs Pperm a -> forall p,
+    Permutation (map ev_occ (args_events cb (postorder_events cb) p a)) (args_occ occurrences p a).
+  Proof.
+    intros [[sp l]|] Ha p; [|constructor]. cbn [args_events args_occ]. rewrite map_app.
+    eapply Permutation_trans; [apply Permutation_app_comm|]. cbn [map app]. constructor.
+    now apply slot_events_perm.
+  Qed.
+
+  Lemma postorder_perm : forall n, Pperm n.
+  Proof.
+    induction n using node_ind'; intros q; cbn [postorder_events occurrences]; rewrite map_app;
+      (eapply Permutation_trans; [apply Permutation_app_comm|]); cbn [map app]; constructor;
+      try constructor.
+    - now apply body_events_perm.
+    - now apply args_events_perm.
+    - rewrite map_app. apply Permutation_app; [now apply args_events_perm | now apply body_events_perm].
+    - now apply args_events_perm.
+    - now apply body_events_perm.
+    - now apply slot_events_perm.
+  Qed.
+
+  Lemma postorder_paths_nodup : forall n p, NoDup (map (@ev_path R) (postorder_events cb p n)).
+  Proof.
+    intros n p. replace (map (@ev_path R) (postorder_events cb p n))
+      with (map fst (map ev_occ (postorder_events cb p n))) by (rewrite map_map; reflexivity).
+    eapply Permutation_NoDup; [apply Permutation_sym, Permutation_map, postorder_perm|].
+    apply occ_nodup.
+  Qed.
+
+  (** shapes of event paths, through the permutation *)
+  Lemma ev_in_occ : forall (l : list (event R)) (o : list occ) e,
+    Permutation (map ev_occ l) o -> In e l -> In (ev_occ e) o.
+  Proof. intros l o e Hp Hin. eapply Permutation_in; [exact Hp|]. now apply in_map. Qed.
+
+  Lemma postorder_path_prefix : forall n p e, In e (postorder_events cb p n) -> exists d, ev_path e = p ++ d.
+  Proof.
+    intros n p e Hin. exact (occ_prefix n p _ (ev_in_occ _ _ _ (postorder_perm n p) Hin)).
+  Qed.
+  Lemma slot_events_shape : forall l p mk i e, In e (slot_events (postorder_events cb) p mk i l) ->
+    exists j d, i <= j /\ ev_path e = p ++ mk j :: d.
+  Proof.
+    intros l p mk i e Hin.
+    exact (slot_occ_shape l p mk i _
+             (ev_in_occ _ _ _ (slot_events_perm l (Forall_Pslot_all _ postorder_perm l) p mk i) Hin)).
+  Qed.
+  Lemma body_events_shape : forall b p e, In e (body_events (postorder_events cb) p b) ->
+    exists j d, ev_path e = p ++ SBody j :: d.
+  Proof.
+    intros b p e Hin.
+    exact (body_occ_shape b p _ (ev_in_occ _ _ _ (body_events_perm b (Pbody_all _ postorder_perm b) p) Hin)).
+  Qed.
+  Lemma args_events_shape : forall a p e, In e (args_events cb (postorder_events cb) p a) ->
+    exists d, ev_path e = p ++ SArgs :: d.
+  Proof.
+    intros a p e Hin.
+    exact (args_occ_shape a p _ (ev_in_occ _ _ _ (args_events_perm a (Pargs_all _ postorder_perm a) p) Hin)).
+  Qed.
+
+  (** ** children before parents: once an object has had its callback, nothing
+      below it is visited any more *)
+  Definition not_below (a b : event R) : Prop := ~ strictly_below (ev_path a) (ev_path b).
+  Definition Pfop (n : node) : Prop := forall p, ForallOrdPairs not_below (postorder_events cb p n).
+
+  Lemma ext_not_below : forall (p d q : path), q = p ++ d -> ~ strictly_below q p.
+  Proof.
+    intros p d q Hq (x & d' & H). subst q. rewrite <- app_assoc in H.
+    rewrite <- (app_nil_r p) in H at 1. apply app_inv_head in H.
+    now apply app_cons_not_nil in H.
+  Qed.
+
+  Lemma diff_step_not_below : forall (p : path) x y d1 d2, x <> y ->
+    ~ strictly_below (p ++ x :: d1) (p ++ y :: d2).
+  Proof.
+    intros p x y d1 d2 Hxy (z & d' & H). rewrite <- app_assoc in H. apply app_inv_head in H.
+    cbn in H. injection H as H _. congruence.
+  Qed.
+
+  Lemma slot_events_fop : forall l, Forall (Pslot Pfop) l -> forall p mk i,
+    (forall a b, mk a = mk b -> a = b) ->
+    ForallOrdPairs not_below (slot_events (postorder_events cb) p mk i l).
+  Proof.
+    induction 1 as [|s r Hs Hr IH]; intros p mk i Hinj; [constructor|]. destruct s as [c|].
+    - rewrite slot_events_some. apply FOP_app; [apply Hs | now apply IH |].
+      intros a b Ha Hb. destruct (postorder_path_prefix _ _ _ Ha) as [d1 D1].
+      destruct (slot_events_shape _ _ _ _ _ Hb) as (j & d2 & Hj & D2).
+      unfold not_below. rewrite D1, D2, app_cons_assoc. apply diff_step_not_below.
+      intros E. apply Hinj in E. lia.
+    - rewrite slot_events_none. now apply IH.
+  Qed.
+  Lemma body_events_fop : forall b, Pbody Pfop b -> forall p,
+    ForallOrdPairs not_below (body_events (postorder_events cb) p b).
+  Proof.
+    intros [c|] Hb p; [|constructor]. destruct c; try constructor.
+    destruct Hb as [_ Hl]. apply slot_events_fop; [exact Hl | congruence].
+  Qed.
+  Lemma args_events_fop : forall a, Pargs Pfop a -> forall p,
+    ForallOrdPairs not_below (args_events cb (postorder_events cb) p a).
+  Proof.
+    intros [[sp l]|] Ha p; [|constructor]. cbn [args_events].
+    apply FOP_app; [apply slot_events_fop; [exact Ha | congruence] | repeat constructor |].
+    intros a b Hin [Hb|[]]. subst b. destruct (slot_events_shape _ _ _ _ _ Hin) as (j & d & _ & D).
+    unfold not_below. cbn [ev_path]. eapply ext_not_below. exact D.
+  Qed.
+
+  Lemma postorder_fop : forall n, Pfop n.
+  Proof.
+    assert (Hself : forall (l : list (event R)) q k s pl,
+              ForallOrdPairs not_below l -> (forall e, In e l -> exists d, ev_path e = q ++ d) ->
+              ForallOrdPairs not_below (l ++ [Ev q k s pl])).
+    { intros l q k s pl Hl Hp. apply FOP_app; [exact Hl | repeat constructor |].
+      intros a b Ha [Hb|[]]. subst b. destruct (Hp a Ha) as [d D].
+      unfold not_below. cbn [ev_path]. eapply ext_not_below. exact D. }
+    induction n using node_ind'; intros q;
+      (assert (Hpre := postorder_path_prefix);
+       match goal with |- ForallOrdPairs _ (postorder_events cb q ?t) =>
+         specialize (Hpre t q); cbn [postorder_events] in Hpre |- * end;
+       apply Hself; [| intros e0 He0; apply Hpre, in_or_app; now left]); try constructor.
+    - now apply body_events_fop.
+    - now apply args_events_fop.
+    - apply FOP_app; [now apply args_events_fop | now apply body_events_fop |].
+      intros x y Hx Hy. destruct (args_events_shape _ _ _ Hx) as (d1 & D1).
+      destruct (body_events_shape _ _ _ Hy) as (j & d2 & D2).
+      unfold not_below. rewrite D1, D2. apply diff_step_not_below. discriminate.
+    - now apply args_events_fop.
+    - now apply body_events_fop.
+    - apply slot_events_fop; [exact H | congruence].
+  Qed.
+
+  (** every object strictly below the object of an event has had its callback
+      earlier in the log *)
+  Lemma postorder_descendants_earlier : forall n p l1 e l2,
+    postorder_events cb p n = l1 ++ e :: l2 ->
+    forall o, In o (occurrences p n) -> strictly_below (ev_path e) (fst o) ->
+    exists e', In e' l1 /\ ev_occ e' = o.
+  Proof.
+    intros n p l1 e l2 Hsplit o Ho Hbelow.
+    assert (Hin : In o (map ev_occ (postorder_events cb p n))).
+    { eapply Permutation_in; [apply Permutation_sym, postorder_perm | exact Ho]. }
+    apply in_map_iff in Hin. destruct Hin as (e' & Eo & Hin). rewrite Hsplit in Hin.
+    apply in_app_or in Hin. destruct Hin as [Hin|[Hin|Hin]].
+    - now exists e'.
+    - subst e'. subst o. cbn [ev_occ fst] in Hbelow. destruct Hbelow as (x & d & Hd).
+      exfalso. exact (path_neq_ext _ _ _ Hd).
+    - exfalso. assert (Hf := postorder_fop n p). rewrite Hsplit in Hf. apply FOP_split in Hf.
+      rewrite Forall_forall in Hf. apply (Hf e' Hin). subst o. exact Hbelow.
+  Qed.
+
+End Spec.
+
+(** * Slot-wise reading of the lists handed to a parent *)
+Lemma slot_results_length : forall {R} (res : path -> node -> R) p mk l i,
+  length (slot_results res p mk i l) = length l.
+Proof.
+  intros R res p mk l. induction l as [|[c|] r IH]; intros i; cbn [length]; [reflexivity| |].
+  - rewrite slot_results_some. cbn [length]. now rewrite IH.
+  - rewrite slot_results_none. cbn [length]. now rewrite IH.
+Qed.
+
+Lemma slot_results_nth : forall {R} (res : path -> node -> R) p mk l i k,
+  nth_error (slot_results res p mk i l) k
+  = option_map (option_map (res (p ++ [mk (i + k)]))) (nth_error l k).
+Proof.
+  intros R res p mk l. induction l as [|[c|] r IH]; intros i k.
+  - destruct k; reflexivity.
+  - rewrite slot_results_some. destruct k as [|k]; cbn [nth_error option_map].
+    + now rewrite Nat.add_0_r.
+    + rewrite IH. now rewrite Nat.add_succ_r.
+  - rewrite slot_results_none. destruct k as [|k]; cbn [nth_error option_map]; [reflexivity|].
+    rewrite IH. now rewrite Nat.add_succ_r.
+Qed.
+
+(** * The statements about the model ([visit]) *)
+Section Final.
+  Context {R : Type}.
+  Variable cb : callbacks R.
+  Variable t : node.
+  Hypothesis Hwf : wf t = true.
+
+  Lemma visit_each_once :
+    NoDup (map (@ev_path R) (events (visit cb t)))
+    /\ Permutation (map ev_occ (events (visit cb t))) (occurrences [] t)
+    /\ NoDup (map fst (occurrences [] t)).
+  Proof.
+    rewrite (visit_events_postorder cb t Hwf). repeat split.
+    - apply postorder_paths_nodup.
+    - apply postorder_perm.
+    - apply occ_nodup.
+  Qed.
+
+  Lemma visit_nodes_once :
+    Permutation (filter is_proper_node (map ev_occ (events (visit cb t)))) (node_occurrences t).
+  Proof.
+    rewrite (visit_events_postorder cb t Hwf). apply perm_filter, postorder_perm.
+  Qed.
+
+  Lemma visit_event_facts : forall e, In e (events (visit cb t)) ->
+    ev_kind e = subject_kind (ev_subj e)
+    /\ ev_pay e = expected_payload cb (ev_path e) (ev_subj e)
+    /\ callback_result cb e = Some (subject_result cb (ev_path e) (ev_subj e)).
+  Proof. rewrite (visit_events_postorder cb t Hwf). apply postorder_event_facts. Qed.
+
+  Lemma visit_children_first_pairs :
+    ForallOrdPairs (fun a b : event R => ~ strictly_below (ev_path a) (ev_path b)) (events (visit cb t)).
+  Proof. rewrite (visit_events_postorder cb t Hwf). apply postorder_fop. Qed.
+
+  Lemma visit_children_first : forall l1 e l2,
+    events (visit cb t) = l1 ++ e :: l2 ->
+    forall o, In o (occurrences [] t) -> strictly_below (ev_path e) (fst o) ->
+    exists e', In e' l1 /\ ev_occ e' = o.
+  Proof. rewrite (visit_events_postorder cb t Hwf). apply postorder_descendants_earlier. Qed.
+
+  Lemma visit_returns_root_result : outcome (visit cb t) = VOk (result cb [] t).
+  Proof. now rewrite (visit_is_postorder cb t Hwf). Qed.
+End Final.
